@@ -8,10 +8,10 @@ def run(tier, seed):
     ck = Check('C03', tier, seed)
     import formulas.ranges as R, formulas.cell as CE, formulas.excel as EX
     ck.encode(R._get_indices_intersection, R._assemble_values, R._intersect, CE.RangesAssembler.__call__, CE.Cell.compile,
-              EX.ExcelModel.from_dict, EX.ExcelModel.assemble)
+              EX.ExcelModel.from_dict, EX.ExcelModel.assemble, EX.ExcelModel.loads, EX.ExcelModel.complete)
     ck.assume('kernels: symbolic rectangles on the full 16384 x 1048576 grid with a symbolic witness cell; _assemble_values runs on a recording grid instead of a numpy array; rows carried as ints',
               'workbook level: template, two constants from the 8-entry value pool and one of 6 insertion orders are boolean selectors; each path builds the real model natively; fixed point = every formula cell equals its own formula (compiled alone) applied to the solved values of the cells it refers to')
-    ck.out_of_scope('interpreter hash seeds other than the listed ones (2 in the quick tier, 5 in the thorough tier)', 'the file loading path (C15 loads real files)', 'whole-column references inside workbooks', 'workbooks outside the three template families')
+    ck.out_of_scope('interpreter hash seeds other than the listed ones (2 in the quick tier, 5 in the thorough tier)', 'workbook files other than the two harness workbooks', 'whole-column references inside workbooks', 'workbooks outside the three template families')
     quick = tier == 'quick'
     hs, batch = [], Batch()
     T = 170 if quick else 900
@@ -26,8 +26,19 @@ def run(tier, seed):
         hashseeds = [0, 1] if quick else [0, 1, 2, 3, 1 + seed % 4000000000]
         for t in range(3):
             for hsd in hashseeds:
-                h = Harness(ck, 'c03_books_t%d_hs%d' % (t, hsd), '# PYTHONHASHSEED = %d\n' % hsd + bsrc.replace('__T__', str(t))); hs.append(h)
-                batch.add(h, T, only=['fixed_point_ok'], bounds='template %d x 8 x 8 constants x 6 insertion orders (384 workbooks), PYTHONHASHSEED=%d: order independence, fixed point, constants kept' % (t, hsd))
+                for order in ([None] if quick else range(6)):
+                    s = '# PYTHONHASHSEED = %d\n' % hsd + bsrc.replace('__T__', str(t))
+                    if not quick:
+                        s = s.replace('pre: sel(o0, o1, o2) < 6', 'pre: sel(o0, o1, o2) == %d' % order)
+                    h = Harness(ck, 'c03_books_t%d_hs%d%s' % (t, hsd, '' if quick else '_o%d' % order), s); hs.append(h)
+                    batch.add(h, T, only=['fixed_point_ok'], bounds='template %d x %s constants x %s, PYTHONHASHSEED=%d: order independence, fixed point, constants kept' % (
+                        t, '8 x 8', '6 insertion orders' if quick else 'insertion order #%d' % order, hsd))
+        # the loading path: real .xlsx files (book1 alone with its linked book loaded on demand, both files in
+        # either order, book2 alone) against the equivalent dictionary
+        fsrc = open(os.path.join(ROOT, 'harness', 'c03_files.py')).read()
+        for i in range(8):
+            h = Harness(ck, 'c03_files_i%d' % i, fsrc.replace('__I__', str(i))); hs.append(h)
+            batch.add(h, T, only=['files_ok'], bounds='two real workbooks (harness/books.py), DATA!A1 = value #%d, DATA!A2 any of 8 values: 4 file loading paths vs the dictionary path, fixed point of the dictionary model' % i)
         batch.run()
     finally:
         for h in hs:
